@@ -157,47 +157,95 @@ theorem std_noellipsis_collapse (sf : StdFlags) (G W : Str) (hE : sf.ellipsis = 
         · exact h3
         · simp [h3] at h
 
-/-- ◐ CORE of the partial result. `G`/`W` are the texts the standard checker compared, `Gx`/`Wx`
+/-- what a standard match means in general (want without marker): the whitespace-collapsed texts
+    agree, or — only with the ELLIPSIS directive — they are related by xdoctest's wildcard matcher.
+    Chain for the ELLIPSIS step: standard `_ellipsis_match` ⇒ xdoctest `_ellipsis_match` on the same
+    texts (`std_ellipsis_implies_xdoc_ellipsis`) ⇒ on the collapsed texts (`C05.ellipsisMatch_collapse`). -/
+theorem std_collapse_match (sf : StdFlags) (G W : Str)
+    (hG : isAscii G = true) (hW : isAscii W = true) (hM : contains marker W = false)
+    (hT : trueFor1 G W = false) (h : stdCheck sf G W = true) :
+    collapse G = collapse W ∨
+      (sf.ellipsis = true ∧ ellipsisMatch (collapse G) (collapse W) = true) := by
+  cases hE : sf.ellipsis
+  · exact Or.inl (std_noellipsis_collapse sf G W hE hG hW hM hT h)
+  · unfold stdCheck at h
+    simp only [toAscii_ascii G hG, toAscii_ascii W hW, hT, Bool.false_eq_true, ↓reduceIte,
+      stdBlankWant_id hM, hE, Bool.true_and] at h
+    have hg : collapse (stdBlankGot G) = collapse G := (wsDel_stdBlankGot G).collapse_eq.symm
+    by_cases h1 : G = W
+    · rw [h1]; exact Or.inl rfl
+    · by_cases h2 : stdBlankGot G = W
+      · rw [← hg, h2]; exact Or.inl rfl
+      · simp only [beq_iff_eq, h1, h2, ↓reduceIte] at h
+        cases hn : sf.normWs
+        · simp only [hn, Bool.false_eq_true, ↓reduceIte, Bool.false_and] at h
+          have := C05.ellipsisMatch_collapse _ _ (std_ellipsis_implies_xdoc_ellipsis _ _ h)
+          rw [hg] at this
+          exact Or.inr ⟨rfl, this⟩
+        · simp only [hn, ↓reduceIte, Bool.true_and] at h
+          by_cases h3 : collapse (stdBlankGot G) = collapse W
+          · rw [← hg]; exact Or.inl h3
+          · have h' : stdEllipsis (collapse (stdBlankGot G)) (collapse W) = true := by
+              simpa [h3] using h
+            have := std_ellipsis_implies_xdoc_ellipsis _ _ h'
+            rw [hg] at this
+            exact Or.inr ⟨rfl, this⟩
+
+/-- ◐ CORE of the partial result (all four flag settings). `G`/`W` are the texts the standard checker compared, `Gx`/`Wx`
     the texts xdoctest compares for the same example; they may differ by whitespace (xdoctest's
     want has no final newline; in `eval` mode its got is the bare `repr`). If the standard check
-    passes WITHOUT using the ELLIPSIS step and the want carries no marker, xdoctest accepts. -/
+    passes and the want carries no marker, xdoctest accepts. -/
 theorem stdlib_match_implies_xdoc_match_core (sf : StdFlags) (G W Gx Wx : Str)
-    (hE : sf.ellipsis = false)
     (hG : isAscii G = true) (hW : isAscii W = true) (hT : trueFor1 G W = false)
     (hM : contains marker W = false) (hMx : contains marker Wx = false)
     (hxg : XGuards Gx) (hxw : XGuards Wx)
     (hcg : collapse Gx = collapse G) (hcw : collapse Wx = collapse W)
     (h : stdCheck sf G W = true) : checkOutput (corrFlags sf) Gx Wx = true := by
-  have hc := std_noellipsis_collapse sf G W hE hG hW hM hT h
   rw [C05.checkOutput_unfold]
-  refine Or.inr (Or.inr (checkMatch_normalize_of_eq _ _ _ ?_))
+  refine Or.inr (Or.inr (checkMatch_normalize_of_match _ _ _ ?_))
   rw [norm1_got_eq _ (corrFlags_normWs sf) (corrFlags_ignWs sf) hxg,
-    norm1_want_eq _ (corrFlags_normWs sf) (corrFlags_ignWs sf) hxw hMx, hcg, hcw, hc]
+    norm1_want_eq _ (corrFlags_normWs sf) (corrFlags_ignWs sf) hxw hMx, hcg, hcw]
+  rcases std_collapse_match sf G W hG hW hM hT h with hc | ⟨_, hc⟩
+  · simp [checkMatch, hc]
+  · simp [checkMatch, corrFlags_ellipsis sf, hc]
 
-/-- ◐ `stdlib_match_implies_xdoc_match_partial`: the guarded statement for the flag settings
-    without ELLIPSIS (no flags, NORMALIZE_WHITESPACE) and wants without the marker, for ALL
-    got/want. MISSING for the full statement `stdlib_match_implies_xdoc_match_statement`:
-    (1) the ELLIPSIS step through xdoctest's always-on whitespace collapsing ("collapse respects
-    the piece decomposition", the same gap as C05's whitespace monotonicity; the matchers
-    themselves are related for all strings by `std_ellipsis_implies_xdoc_ellipsis`);
-    (2) wants that contain `<BLANKLINE>` (the two marker substitutions differ textually and agree
-    only up to whitespace when got has no marker). Both are covered by the correspondence run. -/
+/-- ◐ `stdlib_match_implies_xdoc_match_partial`: the guarded statement for ALL FOUR flag settings
+    (none, ELLIPSIS, NORMALIZE_WHITESPACE, both) and all got/want, for wants without the marker.
+    The ELLIPSIS step goes through xdoctest's always-on whitespace collapsing by
+    `C05.ellipsisMatch_collapse` ("collapse respects the piece decomposition") and through the quote
+    step of NORMALIZE_REPR by `checkMatch_normalize_of_match` (a matching pair is left alone).
+    MISSING for the full statement `stdlib_match_implies_xdoc_match_statement`: wants that contain
+    `<BLANKLINE>` (the two marker substitutions differ textually and agree only up to whitespace
+    when got has no marker): `stdlib_match_implies_xdoc_match_marker_statement` below, covered by
+    the correspondence run. -/
 theorem stdlib_match_implies_xdoc_match_partial (sf : StdFlags) (got want : Str)
-    (hg : Guards got want) (hE : sf.ellipsis = false) (hM : contains marker want = false)
+    (hg : Guards got want) (hM : contains marker want = false)
     (h : stdCheck sf got want = true) : checkOutput (corrFlags sf) got want = true :=
-  stdlib_match_implies_xdoc_match_core sf got want got want hE hg.asciiGot hg.asciiWant
+  stdlib_match_implies_xdoc_match_core sf got want got want hg.asciiGot hg.asciiWant
     hg.notTrueFor1 hM hM hg.xGot hg.xWant rfl rfl h
+
+/-- what remains of `stdlib_match_implies_xdoc_match_statement`: the wants that contain the marker -/
+def stdlib_match_implies_xdoc_match_marker_statement : Prop :=
+  ∀ (sf : StdFlags) (got want : Str), Guards got want → contains marker want = true →
+    stdCheck sf got want = true → checkOutput (corrFlags sf) got want = true
+
+/-- the full guarded statement is the proved part plus the marker part -/
+theorem statement_of_marker_statement (h : stdlib_match_implies_xdoc_match_marker_statement) :
+    stdlib_match_implies_xdoc_match_statement := by
+  intro sf got want hg hs
+  cases hm : contains marker want
+  · exact stdlib_match_implies_xdoc_match_partial sf got want hg hm hs
+  · exact h sf got want hg hm hs
 
 /-- ◐ end-to-end form for `exec`/`single` parts: the standard want ends with the newline the
     parser adds, xdoctest's want is the same text without it; got is the captured stdout -/
 theorem stdlib_match_implies_xdoc_match_partial_stdout (sf : StdFlags) (got want : Str)
-    (hE : sf.ellipsis = false)
     (hG : isAscii got = true) (hW : isAscii (want ++ ['\n']) = true)
     (hT : trueFor1 got (want ++ ['\n']) = false)
     (hM : contains marker (want ++ ['\n']) = false) (hMx : contains marker want = false)
     (hxg : XGuards got) (hxw : XGuards want)
     (h : stdCheck sf got (want ++ ['\n']) = true) : checkOutput (corrFlags sf) got want = true := by
-  refine stdlib_match_implies_xdoc_match_core sf got (want ++ ['\n']) got want hE hG hW hT hM hMx
+  refine stdlib_match_implies_xdoc_match_core sf got (want ++ ['\n']) got want hG hW hT hM hMx
     hxg hxw rfl ?_ h
   have : WsDel (want ++ (['\n'] ++ [])) (want ++ []) :=
     WsDel.append_left _ (WsDel.dropRun _ [] [] (by simp [isSpace_nl]) .nil rfl)
@@ -206,7 +254,6 @@ theorem stdlib_match_implies_xdoc_match_partial_stdout (sf : StdFlags) (got want
 /-- ◐ end-to-end form for `eval` parts that print nothing: the REPL shows `repr + '\n'`,
     xdoctest compares the bare `repr` -/
 theorem stdlib_match_implies_xdoc_match_partial_value (sf : StdFlags) (r want : Str)
-    (hE : sf.ellipsis = false)
     (hG : isAscii (replGot [] (.value r)) = true) (hW : isAscii (want ++ ['\n']) = true)
     (hT : trueFor1 (replGot [] (.value r)) (want ++ ['\n']) = false)
     (hM : contains marker (want ++ ['\n']) = false) (hMx : contains marker want = false)
@@ -219,7 +266,7 @@ theorem stdlib_match_implies_xdoc_match_partial_value (sf : StdFlags) (r want : 
       WsDel.append_left _ (WsDel.dropRun _ [] [] (by simp [isSpace_nl]) .nil rfl)
     simpa using this.collapse_eq.symm
   have := stdlib_match_implies_xdoc_match_core sf (replGot [] (.value r)) (want ++ ['\n']) r want
-    hE hG hW hT hM hMx hxg hxw (by simpa [replGot] using hnl r) (hnl want) h
+    hG hW hT hM hMx hxg hxw (by simpa [replGot] using hnl r) (hnl want) h
   simp [checkGotVsWant, this]
 
 /-! ## 5. the excluded classes: kernel-checked witnesses (each replayed on the real code) -/
@@ -385,6 +432,11 @@ example : isAscii "a\n \nb  c\n".toList = true ∧ contains marker "a\n\nb c\n".
 example : stripAnsi "a\n \nb  c\n".toList = "a\n \nb  c\n".toList ∧
     removePrefixes 'u' 'U' "a\n \nb  c\n".toList = "a\n \nb  c\n".toList := by decide +kernel
 example : checkOutput (corrFlags fNW) "a\n \nb  c\n".toList "a\n\nb c\n".toList = true := by decide +kernel
+-- an ELLIPSIS instance of the partial theorem: all hypotheses hold, matched only through the wildcard
+example : stdCheck fEL "x = 12  s\n".toList "x = ... s\n".toList = true ∧
+    contains marker "x = ... s\n".toList = false ∧ isAscii "x = 12  s\n".toList = true := by decide +kernel
+-- a quoted want with an ellipsis: the quote step leaves the matching pair alone
+example : checkOutput (corrFlags fEL) "'a b c'".toList "'a ... c'".toList = true := by decide +kernel
 -- marker and ellipsis cases outside the partial theorem, evaluated
 example : stdCheck f00 "a\n\nb\n".toList "a\n<BLANKLINE>\nb\n".toList = true ∧
     checkOutput (corrFlags f00) "a\n\nb\n".toList "a\n<BLANKLINE>\nb".toList = true := by decide +kernel
